@@ -35,7 +35,7 @@ import (
 	"verifharness/hx"
 )
 
-const fakeType = "veriffake"
+const fakeType = "veriffake-c20"
 
 var (
 	scriptMu sync.Mutex
